@@ -285,7 +285,12 @@ func c04RetryGen(g *hx.Gen) {
 						if (ri+li+ci+hi)%2 == 0 {
 							n = 1000
 						}
-						emit(mode, "POST", "/api/x?a=1", hdr, int64(n), n, 5, "http://"+cred[0]+"b1.test:8080/base", "http://"+cred[1]+"b2.test:8080/base", "/api", rules, repls...)
+						// body framing: known length, or unknown length (chunked upload)
+						cl := int64(n)
+						if n > 0 && (ri+ci+mi)%2 == 0 {
+							cl = -1
+						}
+						emit(mode, "POST", "/api/x?a=1", hdr, cl, n, 5, "http://"+cred[0]+"b1.test:8080/base", "http://"+cred[1]+"b2.test:8080/base", "/api", rules, repls...)
 					}
 				}
 			}
